@@ -55,6 +55,8 @@ TRUSTED_EXTRA = ["oracle contracts: nx-components, argsort (validated per run)"]
 
 def regenerate(ctx: Ctx) -> None:
     ctx.gen_status.update(tr_pairs.regenerate())
+    from translate import transcripts as _tr
+    ctx.gen_status.update(_tr.constructor_wiring(['NetworkSampling']))
 
 
 # ----------------------------------------------------------------------------- networks
